@@ -94,7 +94,7 @@ def main():
         ],
         "checks": checks,
         "not_applicable": na,
-        "notes": "VERIF_SEED selects the seed, VERIF_BUDGET_S overrides the search budget. Exit 0 clean, 1 violation (VIOLATION line), 2 trouble with the machinery itself. Known findings and repaired defects are listed in known_findings.json (status 'known' / 'fixed'); a known finding is identified by a shape predicate in code (sim/props_c08.go) and reported as a KNOWN-FINDING line, anything else of the same class is still a VIOLATION. Independently written breaking changes are under seeded/, hand-written mutants and reverts of the fixes under sensitivity/, the last regression over all of them in seeded/regression.txt.",
+        "notes": "VERIF_SEED selects the seed, VERIF_BUDGET_S overrides the search budget, VERIF_QUOTA the number of rapid batches every worker runs whatever the speed of the machine (the top-level counts of an evidence file describe that quota part, coverage.beyond_quota what the rest of the time budget added; DESIGN.md 2.7, 7.8). Exit 0 clean, 1 violation (VIOLATION line), 2 trouble with the machinery itself. Known findings and repaired defects are listed in known_findings.json (status 'known' / 'fixed'); a known finding is identified by a shape predicate in code (sim/props_c08.go) and reported as a KNOWN-FINDING line, anything else of the same class is still a VIOLATION. Independently written breaking changes are under seeded/, hand-written mutants and reverts of the fixes under sensitivity/, the last regression over all of them in seeded/regression.txt.",
     }
     json.dump(m, open(os.path.join(HOME, "MANIFEST.json"), "w"), indent=1)
     print("MANIFEST.json written:", len(checks), "checks,", len(na), "not claimed")
